@@ -159,6 +159,9 @@ def scalar_value(kind, count, rnd, n=None, form=None):
         lst = [scalar_elem(kind, rnd, True) for _ in range(n)]
     if bad and lst:
         lst[rnd.randrange(len(lst))] = scalar_elem(kind, rnd, False) if kind in NUM_RANGE or kind in ("Boolean",) else float("inf")
+    elif lst and kind in NUM_RANGE and rnd.random() < 0.06:
+        # a fraction (or a whole-valued float) among the elements of an integer type: refused like the single value
+        lst[rnd.randrange(len(lst))] = rnd.choice([1.5, -0.5, 2.0, 0.0])
     return lst
 
 
@@ -366,6 +369,7 @@ SPEC_CODES = {
     32: "the E5 encoding of an accepted value could not be decoded by a fresh variable of the same type",
     33: "decode did not consume exactly the encoded bytes",
     34: "decoded value differs from the value that was encoded",
+    36: "an accepted number was not kept as it is (e.g. a fraction cut off by an integer type)",
 }
 MODEL_CODES = {
     10: "implementation accepted a value the model rejects",
